@@ -7,6 +7,7 @@ import (
 	"bytes"
 	"errors"
 	"fmt"
+	"io"
 
 	"encoding/json"
 )
@@ -298,6 +299,10 @@ func DecodeMessage(data []byte) (Message, error) {
 	dec := json.NewDecoder(bytes.NewReader(data))
 	if err := dec.Decode(&msg); err != nil {
 		return nil, fmt.Errorf("unmarshaling jsonrpc message: %w", err)
+	}
+	// The data must hold exactly one JSON value.
+	if _, err := dec.Token(); err != io.EOF {
+		return nil, fmt.Errorf("unmarshaling jsonrpc message: unexpected data after the message")
 	}
 
 	if msg.Method == "" {
